@@ -506,6 +506,14 @@ func (rp *ReverseProxy) ServeHTTP(rw http.ResponseWriter, outreq *http.Request, 
 		//
 		// Most of the time forceSetTrailers should be false.
 		forceSetTrailers := len(res.Trailer) != announcedTrailerKeyCount
+		if forceSetTrailers {
+			// A short body may not have been sent yet: flush, so
+			// that net/http chooses chunked framing (with a
+			// Content-Length it would drop the trailers).
+			if fl, ok := rw.(http.Flusher); ok {
+				fl.Flush()
+			}
+		}
 		shallowCopyTrailers(rw.Header(), res.Trailer, forceSetTrailers)
 	}
 
